@@ -196,6 +196,73 @@ def transmission_case(flavour, kind, n, part, when='after', with_pub=False):
         s.teardown()
 
 
+def collector_case(flavour, kind, limit, k, ending, part):
+    """AwaitableRSocket / CollectorSubscriber as the application: limit_rate is the credit it grants - initial request-n = limit,
+    one REQUEST_N(limit) after every full window, outstanding demand never above limit; the awaited result is exactly the
+    elements the peer sent (an error raises)."""
+    from rsocket.awaitable.awaitable_rsocket import AwaitableRSocket
+    s = Solo('client', flavour)
+    try:
+        ars = AwaitableRSocket(s.sock)
+        coro = ars.request_stream(P(b'q'), limit_rate=limit) if kind == 'stream' else ars.request_channel(P(b'q'), limit_rate=limit)
+        task = s.w.loop.create_task(coro)
+        s.settle('Q')
+        req = [f for f in s.sent() if f.type in (R.REQUEST_STREAM, R.REQUEST_CHANNEL)]
+        v = []
+        ctx = 'collector/%s | limit=%s' % (kind, 'max' if limit == MAXN else limit)
+        if len(req) != 1 or req[0].request_n != limit:
+            v.append(('C06.credit-transmitted', 'C06.credit-transmitted | initial | %s' % ctx, 'limit_rate %d: request frames %s' % (limit, [str(f) for f in req])))
+        sid = req[0].sid if req else 1
+        granted = limit
+        sent = 0
+        worst = 0
+        for i in range(k):
+            last = (i == k - 1)
+            if granted - sent <= 0:
+                break  # a legal peer does not send beyond the credit it holds
+            s.peer(R.enc_payload(sid, b'e%d' % i, complete=(last and ending == 'flag')))
+            sent += 1
+            rns = [f.request_n for f in s.sent_on(sid) if f.type == R.REQUEST_N]
+            granted = limit + sum(rns)
+            worst = max(worst, granted - sent)
+        if ending == 'error':
+            s.peer(R.enc_error(sid, 0x201, b'boom'))
+        elif ending == 'complete' or k == 0:
+            s.peer(R.enc_payload(sid, b'', complete=True, next=False))
+        s.settle('Q')
+        rns = [f.request_n for f in s.sent_on(sid) if f.type == R.REQUEST_N]
+        if any(n != limit for n in rns):
+            v.append(('C06.credit-transmitted', 'C06.credit-transmitted | request | %s' % ctx, 'REQUEST_N values %s with limit_rate %d' % (rns, limit)))
+        if limit < MAXN and worst > limit:
+            v.append(('C06.credit-transmitted', 'C06.credit-transmitted | outstanding-demand | %s' % ctx, 'outstanding demand reached %d with limit_rate %d' % (worst, limit)))
+        delivered_all = sent == k
+        if not task.done():
+            if delivered_all:
+                v.append(('C06.all-delivered-with-credit', 'C06.all-delivered-with-credit | %s | awaitable-pending' % ctx, 'all %d elements and the terminal were sent, the awaitable is still pending' % k))
+            else:
+                v.append(('C06.all-delivered-with-credit', 'C06.all-delivered-with-credit | %s | stalled' % ctx,
+                          'the collector stopped granting credit after %d of %d elements (REQUEST_N %s)' % (sent, k, rns)))
+        elif delivered_all:
+            if ending == 'error':
+                if task.exception() is None:
+                    v.append(('C06.all-delivered-with-credit', 'C06.all-delivered-with-credit | %s | error-lost' % ctx, 'the stream ended with ERROR, the awaitable returned %r' % (task.result(),)))
+            elif task.exception() is not None:
+                v.append(('C06.all-delivered-with-credit', 'C06.all-delivered-with-credit | %s | raised' % ctx, repr(task.exception())))
+            else:
+                got = [bytes(p.data or b'') for p in task.result()]
+                want = [b'e%d' % i for i in range(k)]
+                if got != want:
+                    v.append(('C06.all-delivered-with-credit', 'C06.all-delivered-with-credit | %s | wrong-result' % ctx, 'awaited result %s, sent %s' % (got, want)))
+        part.evaluations += 1
+        part.traces += 1
+        part.transitions += k + 1
+        part.nontriv(('collector', kind, limit, k, ending))
+        for rule, sig, detail in v:
+            part.violate(rule, sig, detail, {'kind': 'collector', 'flavour': flavour, 'req': kind, 'limit': limit, 'k': k, 'ending': ending})
+    finally:
+        s.teardown()
+
+
 def make_units(tier):
     units = []
     roles = ('stream-responder', 'channel-responder', 'channel-requester')
@@ -218,6 +285,10 @@ def run_unit(unit, part):
                     for when in ('after', 'same-iteration', 'in-on_subscribe'):
                         for with_pub in ((False, True) if kind == 'channel' else (False,)):
                             transmission_case(flavour, kind, n, part, when, with_pub)
+                for limit in (1, 2, 3, MAXN):
+                    for k in range(0, 7):
+                        for ending in ('flag', 'complete', 'error'):
+                            collector_case(flavour, kind, limit, k, ending, part)
         return
     L = 2 if tier == 'quick' else 3
     role, src, k, flavour = unit['role'], unit['src'], unit['k'], unit['flavour']
@@ -245,6 +316,13 @@ def run_unit(unit, part):
 
 def replay(rec):
     w = rec['witness']
+    if w['kind'] == 'collector':
+        from mc.runner import Partial
+        p = Partial()
+        collector_case(w['flavour'], w['req'], w['limit'], w['k'], w['ending'], p)
+        for v in p.violations.values():
+            print(v.rule, '|', v.detail)
+        return bool(p.violations)
     if w['kind'] == 'tx':
         from mc.runner import Partial
         p = Partial()
